@@ -259,7 +259,7 @@ pub fn c11(tier: Tier) -> i32 {
     let mut report = Report::new("C11", tier, "exploration");
     let thorough = tier == Tier::Thorough;
     let kernels: Vec<&'static str> = arroy::verif::kernels::available();
-    let offsets: Vec<usize> = if thorough { (0..32).collect() } else { vec![0, 1, 2, 3] };
+    let offsets: Vec<usize> = if thorough { (0..32).collect() } else { vec![0, 1, 2, 3, 4, 7] };
     // the thorough tier crosses all 32 offsets only for the one-hot family of a few value pairs
     let pairs = one_hot_pairs(thorough);
     let evals = AtomicU64::new(0);
@@ -305,7 +305,7 @@ pub fn c11(tier: Tier) -> i32 {
         // (ii)-(iv) dense families
         for case in families(n) {
             cases_n.fetch_add(1, Ordering::Relaxed);
-            push(judge_kernels(&case, if thorough { &offsets[..8.min(offsets.len())] } else { &small_offsets }, &kernels, &evals, &nontrivial));
+            push(judge_kernels(&case, if thorough { &offsets[..8.min(offsets.len())] } else { &offsets }, &kernels, &evals, &nontrivial));
             push(judge_metrics(&case, &small_offsets, &evals));
         }
     });
@@ -541,8 +541,8 @@ fn family_patterns(d: usize) -> Vec<Vec<bool>> {
 pub fn c12(tier: Tier) -> i32 {
     let mut report = Report::new("C12", tier, "exploration");
     let thorough = tier == Tier::Thorough;
-    let full_to = if thorough { 16 } else { 12 };
-    let pairs_to = if thorough { 8 } else { 6 };
+    let full_to = if thorough { 16 } else { 14 };
+    let pairs_to = if thorough { 8 } else { 7 };
     let evals = AtomicU64::new(0);
     let vectors = AtomicU64::new(0);
     let pairs = AtomicU64::new(0);
